@@ -36,7 +36,7 @@ func (valdec arrayDecoder) Decode(dec *Decoder, p interface{}, tag byte) {
 		valdec.at.UnsafeSet(reflect2.PtrOf(p), valdec.empty)
 	case TagList:
 		length := valdec.at.Len()
-		count := dec.ReadInt()
+		count := dec.readCount()
 		array := reflect2.PtrOf(p)
 		dec.AddReference(p)
 		n := length
@@ -44,7 +44,7 @@ func (valdec arrayDecoder) Decode(dec *Decoder, p interface{}, tag byte) {
 			n = count
 		}
 		et := valdec.et.Type1()
-		for i := 0; i < n; i++ {
+		for i := 0; i < n && dec.Error == nil; i++ {
 			valdec.decodeElem(dec, et, valdec.at.UnsafeGetIndex(array, i))
 		}
 		switch {
@@ -54,7 +54,7 @@ func (valdec arrayDecoder) Decode(dec *Decoder, p interface{}, tag byte) {
 			}
 		case n < count:
 			temp := valdec.et.UnsafeNew()
-			for i := n; i < count; i++ {
+			for i := n; i < count && dec.Error == nil; i++ {
 				valdec.decodeElem(dec, et, temp)
 			}
 		}
